@@ -22,6 +22,7 @@ type callee struct {
 	recvT   types.Type
 	assumesDone bool
 	skipRecv string // receiver parameter whose requires are established at bind/construction time
+	fnval    *Term  // dynamic calls: the func value being called ($fn in its contract)
 }
 
 // lookupIfaceContract finds the contract for an interface method.
@@ -151,7 +152,7 @@ func (vc *FuncVC) execCall(s *State, cc *ssa.CallCommon, site ssa.Instruction, p
 	for i := 0; i < sig.Params().Len(); i++ {
 		pn = append(pn, fmt.Sprintf("arg%d", i))
 	}
-	cl := &callee{name: name, c: c, ckey: ckey, sig: sig, pnames: pn, args: args}
+	cl := &callee{name: name, c: c, ckey: ckey, sig: sig, pnames: pn, args: args, fnval: &fv}
 	return vc.applyContract(s, cl, ord, site, pos)
 }
 
@@ -460,6 +461,9 @@ func (vc *FuncVC) applyContract(s *State, cl *callee, ord int, site ssa.Instruct
 func (vc *FuncVC) addCallVars(e *env, cl *callee) {
 	for i, a := range cl.args {
 		e.vars[fmt.Sprintf("$arg%d", i)] = a
+	}
+	if cl.fnval != nil {
+		e.vars["$fn"] = *cl.fnval
 	}
 }
 
